@@ -107,6 +107,21 @@ def run(ck: Check):
         sc.setdefault("_cond", "corpus")
         scs.append(sc)
     scs += [gen_consumer(rng, i) for i in range(n)]
+    # group-less consumers that are stopped right after start() returned: without any subscription, with a manual
+    # assignment, with a subscription (start() returns at different points of the bootstrap in the three cases)
+    k = 0
+    for mode in ("none", "assign", "subscribe"):
+        for pause in (None, 0.0, 0.001, 0.05):
+            c0 = {"name": "c0", "group": None, "topics": ["t0"] if mode == "subscribe" else [], "assignors": ["range"],
+                  "auto_commit": False, "cb_delay": 0,
+                  "program": [["start"]] + ([["sleep", pause]] if pause is not None else []) + [["stop", 600.0, True]]}
+            if mode == "assign":
+                c0["assign"] = [["t0", 0], ["t0", 1]]
+            scs.append({"id": f"groupless-{mode}-{pause}", "seed": 77 + k, "brokers": 1, "topics": {"t0": 2},
+                        "preload": {"t0": {"0": 3, "1": 0}}, "consumers": [c0], "cluster_events": [], "coordinator": 0,
+                        "faults": {"apis": [], "plan": {}}, "max_vtime": 900.0, "_cond": "healthy", "_group": False,
+                        "_t_stop": 0.0})
+            k += 1
     rng_old = random.Random(ck.seed * 7121 + 1919)
     for i in range(ck.n(18, 200)):
         sc = conssim.old_broker(gen_consumer(rng_old, 700000 + i), rng_old)
@@ -188,6 +203,8 @@ def run(ck: Check):
             viol(sc, "connections of a stopped producer are still open", {"open": r["open_transports"]})
         if r.get("after_stop_send") in ("returned", "hang"):
             viol(sc, f"send() after stop() did not fail with the closed error ({r.get('after_stop_send')})")
+        if r.get("after_stop_send_batch") in ("returned", "hang"):
+            viol(sc, f"send_batch() after stop() did not fail with the closed error ({r.get('after_stop_send_batch')})")
     ck.extra["input_distribution"] = hist
     ck.obligation("correspondence:stop-paths-within-skeleton-bound", nbad == 0,
                   f"{nbad} stopping points violated the bound or left something running")
